@@ -9,6 +9,8 @@ NOTE = ("Trusted base: Coq 8.16.1 kernel; no axioms (Print Assumptions of every 
         "and rustc are modelled, not verified. See DESIGN.md section 5.")
 TECH = 'Coq proof over hand-written model + checked correspondence (token equality, model-free oracle)'
 CLAIMED = {
+ 'C03': ("Full for the where-clause: with every bound level absent the documented resolution collapses (theorem) to the declared predicates plus exactly the types of the used fields that mention a type/const parameter - never a bare parameter, never omitting a used one; which fields are used per trait is the plan of SpecBound.v proved equal to the generator's behaviour (C04 theorems). Tied to the code by L1 on headers for every trait and reference form, checked model-free against a Python reference of the documentation rule. That rustc accepts the impl is sampled by C20, not proved.", 'DESIGN.md §3 C03'),
+ 'C04': ("Full: for every builder (operators, Clone, Copy, Debug, Default, the five comparison traits, Deref; struct and enum) and every assignment of bound(...) to the up-to-nine levels, the emitted bounded types and predicates equal the documented resolution spec_where (priority order; predicates verbatim; types as Type: Trait; continue only past absent or `..` levels; stops local to a variant/field; field type only at the end of the chain if used and mentioning a parameter; comparison helper attributes most specific first at every placement; declared where-clause always kept). Tied to the code by L1 on headers; checked model-free against a Python reference with one marker predicate per level.", 'DESIGN.md §3 C04'),
  'C14': ("Full: theorems for every item and trait list (re-emitted item = input minus exactly the attributes the documentation assigns to the requested traits, at type/variant/field positions; on failure the item is still emitted; foreign content intact and in order in every case; derive macro re-emits nothing). Tied to the code by L1 on the ITEM part over thousands of generated items and checked model-free by a token-level reference.", 'DESIGN.md §3 C14'),
  'C15': ("Full: theorems for every struct/enum (attribute macro = derive macro on the item carrying the list as its first attribute; one list A++B = two lists A, B with the same shared arguments; an entry's outcome is independent of the co-requested traits whenever no attribute of the item is owned under one list only - ownership being the documentation's table; outcomes in list order). Tied to the code by L1 per group member and checked model-free by real-vs-real metamorphic comparison.", 'DESIGN.md §3 C15'),
  'C16': ("Partial: theorem that no expansion of the modelled generator reaches an unreachable!()/unwrap() site (Panic outcome) and every outcome is impls | error message | dump; termination/determinism of the model by construction. syn/structmeta/quote/proc_macro2 are outside the model: for them the evidence is the structure-aware mutation run over the test-suite/doc corpus (catch_unwind, re-parse, two runs), which is a test.", 'DESIGN.md §3 C16'),
